@@ -30,6 +30,10 @@ func init() {
 			"goapi-value: 107 Value/Object accessor variants x 46 value kinds; goapi-otto: Value.Call and Otto.Get/Set/Call/Eval/Context/ToValue/MakeError/Copy around every arity-0 surface call. " +
 			"entry: 27 entry routes (Run, Eval, Compile, Otto.Call, Value.Call and Object.Call at rest, native callback at rest, host re-entry, getters / setters / toString / toJSON run by Go-side Get / Set / Export / String / MarshalJSON, Copy) x 48 callee bodies touching frame- and scope-dependent machinery (caller, arguments.callee, this, Error().stack, direct / indirect eval, Function, with, try/finally, labels, recursion to the limit, Otto.Context from a host function). " +
 			"scope-mutation: 18 binding kinds (eval-declared local / global, with property, catch parameter, global property, undeclared, ...) x 30 Reference-consuming forms x 16 sub-expressions that delete / redeclare / shadow the binding between resolution and use, through Run, Eval and Compile+Run twice. " +
+			"walk-mutation: 44 built-ins that walk a structure while calling user code (JSON.parse reviver, JSON.stringify replacer / toJSON / getters, the Array iteration and sort callbacks, getters and toString during join / concat / slice / splice / apply / defineProperties / freeze, replace functions, Go-side Export) x 2 structures x 25 things the user code does to the structure at a visit (make it cyclic, deeper, longer, shorter, frozen, return the holder / the root / fresh nesting, throw, re-enter) x {every visit, first visit} x {limit 64, no limit for the mutations that cannot grow the structure}. " +
+			"sinks: 20 string representations (plain, UTF-16 backed ASCII / Latin / astral / lone surrogates / NUL, wrapped, nested) x 64 script-level Go-typed sinks (host function parameters of type string, []byte, interface{}, int, float64, bool, variadic, slices, maps, structs, pointers, Value, FunctionCall; struct fields; map keys and values; slice and array elements) and 15 Go API sinks. " +
+			"globals: 46 special bindings (global eval, Function, Object, ..., undefined, NaN; intrinsic prototype methods) x 15 mutations (overwrite, delete, accessor, freeze, redeclare through eval) x 15 groups of public Otto methods afterwards (Copy, Run, Eval, Compile, Get, Set, Call, Object, ToValue, Make*Error, Context, result accessors, host functions, setters). " +
+			"descriptors: 11 receiver kinds (5 bridged) x 6 property names x 324 descriptor shapes (3^3 attribute states x 12 payloads incl. value-less, accessor, undefined halves, contradictory) x 5 operations (defineProperty, defineProperties, create, define-then-freeze, freeze-then-define). " +
 			"Every case runs in a child process of the worker; a dead child (fatal error, watchdog) is a mismatch of the announced case and the shard continues after it.",
 		Families: []engine.Family{
 			{Name: "surface-a01", Run: supervised(runSurfaceClass("a01"))},
@@ -40,6 +44,10 @@ func init() {
 			{Name: "structured", Run: supervised(runStructured)},
 			{Name: "entry", Run: supervised(runEntry)},
 			{Name: "scope-mutation", Run: supervised(runScopeMutation)},
+			{Name: "walk-mutation", Run: supervised(runWalkMutation)},
+			{Name: "sinks", Run: supervised(runSinks)},
+			{Name: "globals", Run: supervised(runGlobals)},
+			{Name: "descriptors", Run: supervised(runDescriptors)},
 			{Name: "bytes", Run: supervised(runBytes)},
 			{Name: "tokens", Run: supervised(runTokens)},
 			{Name: "recursion", Run: supervised(runRecursion)},
